@@ -200,6 +200,22 @@ int main(int argc, char* argv[]) {
             // to objects the user may already have evaluated): the result must still be the trace
             EA.prepare();
             printf("AVGAGAIN %d %d %s\n", i, j, pv::hexc(EA.getResult()).c_str());
+            // copies of the prepared object (std::vector<EnsembleAverage>::push_back, pass by value): a copy is an EnsembleAverage
+            // of the same operator in the same state, so its result must be the trace as well -- read directly, and after a
+            // prepare() on a copy of the copy (a no-op on a Prepared object, a full evaluation on one that lost its status)
+            {
+                EnsembleAverage EC(EA);
+                ComplexType direct = EC.getResult();
+                EnsembleAverage EC2(EC);
+                EC2.prepare();
+                printf("AVGCOPY %d %d %s\n", i, j, pv::hexc(direct).c_str());
+                printf("AVGCOPY2 %d %d %s\n", i, j, pv::hexc(EC2.getResult()).c_str());
+                // a copy taken BEFORE prepare() and prepared afterwards (a vector filled first, evaluated later)
+                EnsembleAverage E0(*ed->S, *ed->H, A, *ed->rho);
+                EnsembleAverage E1(E0);
+                E1.prepare();
+                printf("AVGCOPY0 %d %d %s\n", i, j, pv::hexc(E1.getResult()).c_str());
+            }
         } else if (c == "quad") {
             int i = L(t[1]), j = L(t[2]);
             QuadraticOperator A(*ed->Idx, *ed->S, *ed->H, i, j);
